@@ -23,7 +23,8 @@
   every request, and the harness evaluates its own copy of them next to the real helper and the real
   `auth_check` (T3), so the hypotheses are exercised on every run.
 -/
-import RumaModel.Lemmas.PowerLevelsAuth
+import RumaModel.Lemmas.PowerLevelsChange
+import RumaModel.Lemmas.PowerLevelsPush
 import RumaModel.Generated.C20
 namespace Ruma.Props.C20
 open Ruma Ruma.Auth Ruma.Ident Ruma.PowerLevels
@@ -308,6 +309,94 @@ theorem userCanRedact_iff_auth_v1 (rules : AuthRules) (f : Fetch) (ev : Event) (
   · simp only [hr, if_false, decide_false, Bool.and_false]
     cases decide (p.forUser ev.sender ≥ p.forMessage tRedaction) <;> rfl
 
+/-! ## Part 4 — power-levels events and notifications -/
+
+/-- **Sending `m.room.power_levels`.** `user_can_send_state(sender, RoomPowerLevels)` = `auth_check`
+accepts the sender's power-levels event that re-sends the current content unchanged (the minimal
+such event: every further requirement of the rules is about what the event changes). -/
+theorem userCanSendState_powerLevels_iff_auth (rules : AuthRules) (f : Fetch) (ev : Event) (p : Levels)
+    (hdom : domPl rules f ev = true) (hp : roomLevels f = some p) :
+    p.userCanSendState ev.sender tPowerLevels = authCheck rules ev f := by
+  simp only [domPl, Bool.and_eq_true, beq_iff_eq] at hdom
+  obtain ⟨⟨⟨hs, hty⟩, hsk⟩, hcont⟩ := hdom
+  have h1 : ev.type ≠ tCreate := by rw [hty]; decide
+  have h2 : ev.type ≠ tMember := by rw [hty]; decide
+  have h5 : (rules.specialCaseRoomAliases && ev.type == tAliases) = false := by
+    have : (tPowerLevels == tAliases) = false := by decide
+    simp [hty, this]
+  obtain ⟨pl, hpl, hwf, hof, h⟩ := general_eq hs hp h1 h2 h5
+  have hc : ev.content = pl.content := by
+    simp only [plContent, hpl, Option.map_some] at hcont
+    have := JVal.eq_of_beq' hcont
+    injection this with this
+    exact this.symm
+  have e4 : (tPowerLevels == tThirdPartyInvite) = false := by decide
+  have hfk : foreignUserStateKey ev = false := by simp [foreignUserStateKey, hsk]
+  refine (authCheck_eq_of_require ?_).symm
+  rw [h]
+  simp only [hty, e4, hsk, hfk, Option.isSome_some, Bool.false_eq_true, if_false, if_true, Bool.not_false,
+    require_true, ok_bind, beq_self_eq_true, checkRoomPowerLevels_same hc hwf, require_bind_ok,
+    Levels.userCanSendState]
+
+/-- **Changing one user's level.** `user_can_change_user_power_level(sender, target)` = `auth_check`
+accepts the sender's power-levels event whose content is the current content with the canonical
+change of `target`'s level (`canonicalChange`: an existing `users` entry removed — the change that
+needs the least power; a missing one added at the sender's own level) and nothing else. Includes
+target = sender. -/
+theorem userCanChangeUserPowerLevel_iff_auth (rules : AuthRules) (f : Fetch) (ev : Event) (p : Levels)
+    (target : Str) (hdom : domChpl rules f ev target = true) (hp : roomLevels f = some p) :
+    p.userCanChangeUserPowerLevel ev.sender target = authCheck rules ev f := by
+  simp only [domChpl, Bool.and_eq_true, beq_iff_eq] at hdom
+  obtain ⟨⟨⟨⟨hs, hty⟩, hsk⟩, hv⟩, hcont⟩ := hdom
+  have h1 : ev.type ≠ tCreate := by rw [hty]; decide
+  have h2 : ev.type ≠ tMember := by rw [hty]; decide
+  have h5 : (rules.specialCaseRoomAliases && ev.type == tAliases) = false := by
+    have : (tPowerLevels == tAliases) = false := by decide
+    simp [hty, this]
+  obtain ⟨pl, hpl, hwf, hof, h⟩ := general_eq hs hp h1 h2 h5
+  have hcc : canonicalChange pl.content target (p.forUser ev.sender) = some ev.content := by
+    simp only [plContent, hpl, Option.map_some, hp] at hcont
+    cases hc : canonicalChange pl.content target (p.forUser ev.sender) with
+    | none => simp [hc] at hcont
+    | some c' =>
+      simp only [hc] at hcont
+      have := JVal.eq_of_beq' hcont
+      injection this with this
+      rw [this]
+  have e4 : (tPowerLevels == tThirdPartyInvite) = false := by decide
+  have hfk : foreignUserStateKey ev = false := by simp [foreignUserStateKey, hsk]
+  refine (authCheck_eq_of_require ?_).symm
+  rw [h]
+  simp only [hty, e4, hsk, hfk, Option.isSome_some, Bool.false_eq_true, if_false, if_true, Bool.not_false,
+    require_true, ok_bind, beq_self_eq_true,
+    checkRoomPowerLevels_canonical (creator := []) hwf hof hv hcc, require_bind_require,
+    Levels.userCanChangeUserPowerLevel, Levels.userCanSendState]
+  congr 1
+  by_cases ha : p.forUser ev.sender ≥ p.forState tPowerLevels <;>
+    by_cases hst : (ev.sender == target) = true <;>
+    cases hl : lastGet p.users target <;> simp [ha, hst]
+
+/-- **`@room` notifications.** `user_can_trigger_room_notification(u)` = the push condition
+`sender_notification_permission` with key `room` (C12 model, `PushCondition::applies`) for an event
+sent by `u`, in a room context whose power levels are `From<RoomPowerLevels>` of the same levels —
+for every interpretation `E` of the external functions under which `u` is a user id, and every
+encoding of user ids as text that does not identify `u` with another key of `users`. -/
+theorem notification_iff_push_condition (E : Push.Ext) (enc : Str → Push.Text) (p : Levels) (u : Str)
+    (ev : Push.FMap) (ctx : Push.Ctx)
+    (henc : ∀ k ∈ p.users.map (·.1), enc k = enc u → k = u)
+    (hsender : ev.getStr Push.kSender = some (enc u)) (hid : E.isUserId (enc u) = true)
+    (hctx : ctx.powerLevels = some (toPushCtx enc p)) :
+    p.userCanTriggerRoomNotification u = Push.senderMayNotify E ev ctx Push.kRoom ∧
+    (Push.selfSent ev ctx = false →
+      Push.Cond.applies E (.senderNotificationPermission Push.kRoom) ev ctx =
+        .ok (p.userCanTriggerRoomNotification u)) := by
+  have h : p.userCanTriggerRoomNotification u = Push.senderMayNotify E ev ctx Push.kRoom := by
+    simp only [Push.senderMayNotify, hctx, hsender, hid, Bool.not_true, Bool.false_eq_true, if_false,
+      Push.notificationsGet, if_true, userLevel_toPushCtx enc p u henc, Levels.userCanTriggerRoomNotification]
+    rfl
+  refine ⟨h, fun hself => ?_⟩
+  simp only [Push.Cond.applies, hself, Bool.false_eq_true, if_false, h]
+
 /-! ## Concrete rooms: the hypotheses are satisfiable, and the refutation witnesses -/
 
 namespace Ex
@@ -371,6 +460,19 @@ example :
       { mk "$ev:s1" alice tRedaction none [] with redacts := some (bs "$x:s2") } = true := by
   decide +kernel
 
+open Ex in
+/-- The hypotheses of the power-levels theorems hold on concrete events: the unchanged content; bob's
+entry removed; carol (no entry) added at alice's level 60. -/
+example :
+    domPl AuthRules.v8 (room pl1 []) (mk "$ev" alice tPowerLevels (some []) pl1) = true ∧
+    domChpl AuthRules.v8 (room pl1 []) (mk "$ev" alice tPowerLevels (some [])
+      [(bs "ban", .str (bs "60")), (bs "events", .obj [(bs "m.room.topic", .int 60)]), (bs "kick", .int 40),
+       (bs "users", .obj [(alice, .int 60)])]) bob = true ∧
+    domChpl AuthRules.v8 (room pl1 []) (mk "$ev" alice tPowerLevels (some [])
+      [(bs "ban", .str (bs "60")), (bs "events", .obj [(bs "m.room.topic", .int 60)]), (bs "kick", .int 40),
+       (bs "users", .obj [(alice, .int 60), (bob, .int 10), (bs "@carol:s2", .int 60)])]) (bs "@carol:s2") = true := by
+  decide +kernel
+
 /-! ### The full statement about `user_can_send_state` is false: two witnesses -/
 
 open Ex in
@@ -426,6 +528,9 @@ theorem userCanSendStateStatement_false : ¬ UserCanSendStateStatement := by
 #print axioms thirdPartyInvite_auth_is_invite_level
 #print axioms userCanRedactOwn_iff_auth
 #print axioms userCanRedact_iff_auth_v1
+#print axioms userCanSendState_powerLevels_iff_auth
+#print axioms userCanChangeUserPowerLevel_iff_auth
+#print axioms notification_iff_push_condition
 #print axioms sendState_thirdPartyInvite_witness
 #print axioms sendState_aliases_witness
 #print axioms userCanSendStateStatement_false
